@@ -3,7 +3,7 @@
    boolean(0) = false, boolean(1) = true, for EVERY 64-bit engine state. *)
 From Coq Require Import ZArith Reals Lia Lra Bool.
 From Flocq Require Import Core IEEE754.BinarySingleNaN.
-From Flocq Require Import Plus_error.
+From Flocq Require Import Plus_error Mult_error.
 From VV Require Import Base.F64 Rng.RngDefs Rng.RngProofs Rng.DistDefs.
 Local Open Scope R_scope.
 
@@ -332,4 +332,132 @@ Lemma between_real_contract : forall lo hi st, wf st ->
 Proof.
   intros lo hi st Hw Flo Fhi Hlt Fd.
   destruct (between_real_in lo hi st Hw Flo Fhi (ltb_B2R lo hi Flo Fhi Hlt) Fd) as (A & B & C). auto.
+Qed.
+
+(* ------------------------------------------------------------ the wide-interval branch of between<double> *)
+Definition MAXF : R := bpow radix2 1024 - bpow radix2 971.
+
+Lemma bpow_succ2 : forall e, bpow radix2 (e + 1) = 2 * bpow radix2 e.
+Proof. intro e. rewrite bpow_plus. change (bpow radix2 1) with 2. ring. Qed.
+
+Lemma MAXF_fmt : F64fmt MAXF.
+Proof.
+  assert (E : MAXF = B2R (F64.of_bits 9218868437227405311)).
+  { assert (P : B2R (F64.of_bits 9218868437227405311) = IZR 9007199254740991 * bpow radix2 971) by reflexivity.
+    rewrite P. unfold MAXF. change 1024%Z with (53 + 971)%Z. rewrite bpow_plus.
+    change (bpow radix2 53) with (IZR 9007199254740992).
+    replace 9007199254740991%Z with (9007199254740992 - 1)%Z by reflexivity. rewrite minus_IZR. ring. }
+  rewrite E. apply generic_format_B2R.
+Qed.
+
+Lemma half_exact : forall x, F64fmt x -> bpow radix2 970 <= Rabs x -> F64fmt (x / 2).
+Proof.
+  intros x Fx Hx. replace (x / 2) with (x * bpow radix2 (-1)) by (change (bpow radix2 (-1)) with (/ 2); field).
+  rewrite fexp64_FLT. apply mult_bpow_exact_FLT; [rewrite <- fexp64_FLT; exact Fx|].
+  pose proof (mag_ge_bpow radix2 x 971 Hx). lia.
+Qed.
+
+(* when the rounded width overflows, both ends are huge (and of opposite signs) *)
+Lemma wide_large : forall L H, Rabs L <= MAXF -> Rabs H <= MAXF -> L < H ->
+  ~ (Rabs (rnd64 (H - L)) < bpow radix2 1024) -> bpow radix2 970 <= - L /\ bpow radix2 970 <= H.
+Proof.
+  intros L H HL HH Hlt Hov. set (x := H - L) in *. assert (x0 : 0 < x) by (unfold x; lra).
+  assert (r0 : 0 <= rnd64 x) by (apply rnd_ge0; lra). rewrite Rabs_pos_eq in Hov by exact r0.
+  assert (E971 : bpow radix2 971 = 2 * bpow radix2 970) by (change 971%Z with (970 + 1)%Z; apply bpow_succ2).
+  assert (E1024 : bpow radix2 1024 = 2 * bpow radix2 1023) by (change 1024%Z with (1023 + 1)%Z; apply bpow_succ2).
+  assert (P970 : 0 < bpow radix2 970) by apply bpow_gt_0.
+  assert (L970 : bpow radix2 970 < bpow radix2 1023) by (apply bpow_lt; lia).
+  assert (X : bpow radix2 1024 - bpow radix2 970 <= x).
+  { apply Rnot_lt_le. intro Hx. apply Hov.
+    destruct (Rlt_or_le x (bpow radix2 1023)) as [S|B].
+    - apply Rle_lt_trans with (bpow radix2 1023); [|lra].
+      rewrite <- (rnd_id (bpow radix2 1023)) by (apply fmt_bpow; lia). apply rnd_mono. lra.
+    - pose proof (error_le_half_ulp radix2 fexp64 (fun z => negb (Z.even z)) x) as Er.
+      rewrite <- rnd64_N in Er.
+      assert (U : ulp radix2 fexp64 x = bpow radix2 971).
+      { rewrite ulp_neq_0 by lra. rewrite (cexp_fexp_pos radix2 fexp64 x 1024); [reflexivity|].
+        change (1024 - 1)%Z with 1023%Z. lra. }
+      rewrite U in Er. apply Rabs_le_inv in Er. lra. }
+  apply Rabs_le_inv in HL. apply Rabs_le_inv in HH. unfold MAXF, x in *. split.
+  - destruct (Rle_or_lt H (bpow radix2 1024 - bpow radix2 971)); lra.
+  - destruct (Rle_or_lt (-L) (bpow radix2 1024 - bpow radix2 971)); lra.
+Qed.
+
+Lemma B2R_two : B2R (F64.of_Z 2) = 2 /\ is_finite (F64.of_Z 2) = true.
+Proof.
+  destruct (of_Z_correct 2 ltac:(lia)) as (H1 & H2 & _). split; [|exact H2].
+  rewrite H1. change 2 with (bpow radix2 1). apply rnd_id. apply fmt_bpow. lia.
+Qed.
+
+(* x / 2.0 for a huge finite double: exact *)
+Lemma half_float : forall x, is_finite x = true -> bpow radix2 970 <= Rabs (B2R x) ->
+  is_finite (F64.div x (F64.of_Z 2)) = true /\ B2R (F64.div x (F64.of_Z 2)) = B2R x / 2.
+Proof.
+  intros x Fx Hx. destruct B2R_two as [T1 T2]. unfold F64.div.
+  pose proof (Bdiv_correct 53 1024 prec_gt_0_53 prec_lt_emax_53 mode_NE x (F64.of_Z 2)) as D. rewrite T1 in D.
+  specialize (D ltac:(lra)).
+  rewrite (rnd_id (B2R x / 2)) in D by (apply half_exact; [apply generic_format_B2R|exact Hx]).
+  rewrite Rlt_bool_true in D.
+  2:{ pose proof (abs_B2R_lt_emax 53 1024 x) as A. unfold Rdiv. rewrite Rabs_mult, (Rabs_pos_eq (/ 2)) by lra.
+      pose proof (Rabs_pos (B2R x)). lra. }
+  destruct D as (D1 & D2 & _). rewrite Fx in D2. auto.
+Qed.
+
+(* the repaired wide-interval branch of vita::random::between<double> *)
+Lemma between_real_wide_in : forall lo hi st, wf st ->
+  is_finite lo = true -> is_finite hi = true -> B2R lo < B2R hi -> is_finite (F64.sub hi lo) = false ->
+  let v := fst (between_real lo hi st) in
+  is_finite v = true /\ B2R lo <= B2R v <= B2R hi.
+Proof.
+  intros lo hi st Hw Flo Fhi Hlt Fd. cbv zeta. unfold between_real, F64.is_finite. rewrite Fd.
+  set (L := B2R lo) in *. set (H := B2R hi) in *.
+  (* the width overflows, so both ends are huge *)
+  assert (Hov : ~ (Rabs (rnd64 (H - L)) < bpow radix2 1024)).
+  { intro Hs. unfold F64.sub in Fd.
+    pose proof (Bminus_correct 53 1024 prec_gt_0_53 prec_lt_emax_53 mode_NE hi lo Fhi Flo) as S. fold L H in S.
+    rewrite Rlt_bool_true in S by exact Hs. destruct S as (_ & S2 & _). rewrite S2 in Fd. discriminate Fd. }
+  assert (ML : Rabs L <= MAXF) by (apply (abs_B2R_le_emax_minus_prec 53 1024 prec_gt_0_53 lo)).
+  assert (MH : Rabs H <= MAXF) by (apply (abs_B2R_le_emax_minus_prec 53 1024 prec_gt_0_53 hi)).
+  destruct (wide_large L H ML MH Hlt Hov) as [BL BH].
+  assert (P970 : 0 < bpow radix2 970) by apply bpow_gt_0.
+  destruct (half_float lo Flo) as [Fl2 Bl2]; [fold L; rewrite Rabs_left by lra; lra|].
+  destruct (half_float hi Fhi) as [Fh2 Bh2]; [fold H; rewrite Rabs_pos_eq by lra; lra|].
+  fold L in Bl2. fold H in Bh2.
+  set (lo2 := F64.div lo (F64.of_Z 2)) in *. set (hi2 := F64.div hi (F64.of_Z 2)) in *.
+  (* the halved interval has a finite width *)
+  assert (Fd2 : is_finite (F64.sub hi2 lo2) = true).
+  { unfold F64.sub. pose proof (Bminus_correct 53 1024 prec_gt_0_53 prec_lt_emax_53 mode_NE hi2 lo2 Fh2 Fl2) as S.
+    rewrite Bl2, Bh2 in S.
+    assert (B : 0 <= rnd64 (H / 2 - L / 2) <= MAXF).
+    { split; [apply rnd_ge0; lra|]. rewrite <- (rnd_id MAXF MAXF_fmt). apply rnd_mono.
+      apply Rabs_le_inv in ML. apply Rabs_le_inv in MH. lra. }
+    rewrite Rlt_bool_true in S.
+    2:{ rewrite Rabs_pos_eq by tauto. unfold MAXF in B. pose proof (bpow_gt_0 radix2 971). lra. }
+    tauto. }
+  assert (Hlt2 : B2R lo2 < B2R hi2) by (rewrite Bl2, Bh2; lra).
+  destruct (uniform_real_in lo2 hi2 st Hw Fl2 Fh2 Hlt2 Fd2) as [Fw [W1 W2]].
+  destruct (uniform_real lo2 hi2 st) as [w st']. cbn [fst] in *. rewrite Bl2 in W1. rewrite Bh2 in W2.
+  (* 2 * w *)
+  destruct B2R_two as [T1 T2]. unfold F64.mul.
+  pose proof (Bmult_correct 53 1024 prec_gt_0_53 prec_lt_emax_53 mode_NE (F64.of_Z 2) w) as M. rewrite T1 in M.
+  assert (V : L <= rnd64 (2 * B2R w) <= H).
+  { split.
+    - rewrite <- (rnd_id L) at 1 by apply generic_format_B2R. apply rnd_mono. lra.
+    - rewrite <- (rnd_id H) at 1 by apply generic_format_B2R. apply rnd_mono. lra. }
+  rewrite (between_lt_emax L _ H (abs_B2R_lt_emax 53 1024 lo) (abs_B2R_lt_emax 53 1024 hi) V) in M.
+  destruct M as (M1 & M2 & _). rewrite T2, Fw in M2. split; [exact M2|]. rewrite M1. exact V.
+Qed.
+
+(* both branches: the H_draws contract for reals holds for every finite lo < hi and every 64-bit engine state *)
+Lemma between_real_contract_all : forall lo hi st, wf st ->
+  F64.is_finite lo = true -> F64.is_finite hi = true -> F64.ltb lo hi = true ->
+  F64.leb lo (fst (between_real lo hi st)) = true /\ F64.leb (fst (between_real lo hi st)) hi = true /\
+  F64.is_finite (fst (between_real lo hi st)) = true.
+Proof.
+  intros lo hi st Hw Flo Fhi Hlt.
+  destruct (F64.is_finite (F64.sub hi lo)) eqn:Fd; [apply between_real_contract; assumption|].
+  destruct (between_real_wide_in lo hi st Hw Flo Fhi (ltb_B2R lo hi Flo Fhi Hlt) Fd) as [Fv [V1 V2]].
+  set (v := fst (between_real lo hi st)) in *. unfold F64.is_finite. split; [|split; [|exact Fv]].
+  - unfold F64.leb. rewrite (cmp_finite lo v Flo Fv). destruct (Rcompare_spec (B2R lo) (B2R v)); try reflexivity. lra.
+  - unfold F64.leb. rewrite (cmp_finite v hi Fv Fhi). destruct (Rcompare_spec (B2R v) (B2R hi)); try reflexivity. lra.
 Qed.
